@@ -350,6 +350,9 @@ def _chunk(args):
         # element (not vertex) contacts of an interpolated flex: MJWarp spreads the force over the cell's nodes with inverse-distance weights
         # (constraint.py: "TODO(flex): Replace inverse-distance contact weights with barycentric weights"), MuJoCo with the element's barycentric ones
         tag = "@interpolated_element_contact_weights" if c["dof"] == "trilinear" and any(max(x["elem"]) >= 0 and max(x["key"][0]) >= 0 for x in cb_all) else ""
+        # contacts between an interpolated flex and another flex: constraint.py says "interpolated flex contacts only handle flex-vs-geom contacts" (TODO there)
+        if c["dof"] == "trilinear" and any(x["key"][0] == (-1, -1) and x["key"][1][0] != x["key"][1][1] for x in cb_all):
+          tag = "@interpolated_flexflex_contact"
         cmp.close("qfrc_constraint" + tag, d.qfrc_constraint.numpy()[w], mjd.qfrc_constraint, 5e-3, scale=sc)
         cmp.close("qacc" + tag, d.qacc.numpy()[w], mjd.qacc, 5e-3, scale=float(np.abs(mjd.qacc).max()))
     if refuse:
